@@ -27,6 +27,7 @@ Extraction "model.ml"
   Feed.feed_lines_res
   Feed.norm_line
   Feed.seen_lines
+  Feed.bom_offset
   Feed.max_ref_size
   LineEndings.to_crlf
   LineEndings.to_cr
